@@ -104,16 +104,32 @@ ValuesWithin1(o1, o2) == OverAnswered(o1, o2, PartValuesWithin1)
    more than the slack above.  Used as a premise of the "does not equal"
    clause, so that two fits that happen to produce the same function (or
    functions equal up to rounding) are never required to compare unequal. *)
-PartClearlyDiffer(p, q) ==
+PartContinuousDiffer(p, q) ==
     \/ p.shape # q.shape
-    \/ p.dh # q.dh \/ p.dl # q.dl
     \/ Len(p.cfx) # Len(q.cfx)
     \/ \E i \in 1..Len(p.cfx) : p.cok[i] /\ q.cok[i] /\ Abs(p.cfx[i] - q.cfx[i]) > 1
+PartClearlyDiffer(p, q) ==
+    \/ PartContinuousDiffer(p, q)
+    \/ p.dh # q.dh \/ p.dl # q.dl
+(* An object that also reports the continuous quantity behind its discrete
+   answer (SVC: decision_function next to predict) can flip a label on a
+   query lying exactly on its decision boundary while being the same
+   function up to rounding: two SVC fits whose support vectors coincide
+   (one fitted on a prefix of the other's rows that contains them all) have
+   decision values +-1e-17 there.  For such an object only a difference of
+   the continuous outputs beyond the slack counts as observable; a discrete
+   difference alone does not.  (This narrows the premise of the "does not
+   equal" clause; it cannot raise an alarm.  Found as a false alarm of the
+   thorough tier on the unchanged tree, run 12050.) *)
+HasContinuous(o) == \E i \in 1..Len(o.parts) : PartOk(o.parts[i]) /\ Len(o.parts[i].cfx) > 0
 ClearlyDiffer(o1, o2) ==
     /\ o1.status = "ok" /\ o2.status = "ok"
     /\ Len(o1.parts) = Len(o2.parts)
-    /\ \E i \in 1..Len(o1.parts) :
-          PartOk(o1.parts[i]) /\ PartOk(o2.parts[i]) /\ PartClearlyDiffer(o1.parts[i], o2.parts[i])
+    /\ IF HasContinuous(o1) /\ HasContinuous(o2)
+       THEN \E i \in 1..Len(o1.parts) :
+               PartOk(o1.parts[i]) /\ PartOk(o2.parts[i]) /\ PartContinuousDiffer(o1.parts[i], o2.parts[i])
+       ELSE \E i \in 1..Len(o1.parts) :
+               PartOk(o1.parts[i]) /\ PartOk(o2.parts[i]) /\ PartClearlyDiffer(o1.parts[i], o2.parts[i])
 
 IsJson(fmt) == fmt \in {"json", "jsonperm"}
 Formats == {"bincode", "json", "jsonperm"}
